@@ -650,6 +650,7 @@ func main() {
 		os.Exit(1)
 	}
 	layerEntries(args, names, files)
+	derivedSlices(args, names, files)
 	fmt.Printf("C13: %d fields, %d status sites (%d assigning), %d status-derived assignments, %d shape notes\n", len(bwFields), len(sites), nAssign, len(dd), len(sh))
 }
 
